@@ -239,6 +239,8 @@ func runCase(d *desc, typ el.EventType, variant int) string {
 	return v
 }
 
+var otherKeys = []string{"JSON", "Json", "json ", "text", ""}
+
 // one case: payload descriptor x event type x node variant
 func runCaseInner(d *desc, typ el.EventType, variant int, prefill bool) string {
 	created := time.Date(2024, 2, 29, 23, 59, 59, 123456789, time.FixedZone("X", 3*3600+1800))
@@ -249,6 +251,11 @@ func runCaseInner(d *desc, typ el.EventType, variant int, prefill bool) string {
 		// the event already carries bytes under the json format (an earlier
 		// formatter, a re-processed event): they must be replaced, not trusted
 		e.FormattedAs(el.JSONFormat, []byte("{\"stale\":true}\n"))
+		// ... and entries under other keys, also keys that differ from "json" only by case or blanks:
+		// the table is keyed by the exact string, they are other formats and stay as they are
+		for _, k := range otherKeys {
+			e.FormattedAs(k, []byte("kept:"+k))
+		}
 	}
 	var node el.Node
 	wantForward, wantPredErr := true, false
@@ -258,7 +265,8 @@ func runCaseInner(d *desc, typ el.EventType, variant int, prefill bool) string {
 	case 1:
 		node = &el.JSONFormatterFilter{}
 	case 2:
-		node = &el.JSONFormatterFilter{Predicate: func(interface{}) (bool, error) { return true, nil }}
+		// a predicate may look at the event it is asked about (its format table is a concurrent-safe table)
+		node = &el.JSONFormatterFilter{Predicate: func(interface{}) (bool, error) { e.Format("text"); e.FormattedAs("seen-by-predicate", nil); return true, nil }}
 	case 3:
 		node = &el.JSONFormatterFilter{Predicate: func(interface{}) (bool, error) { return false, nil }}
 		wantForward = false
@@ -305,6 +313,17 @@ func runCaseInner(d *desc, typ el.EventType, variant int, prefill bool) string {
 	b, ok := e.Format(el.JSONFormat)
 	if !ok {
 		return "nothing stored under the json format"
+	}
+	if prefill {
+		for _, k := range otherKeys {
+			if v, ok := e.Format(k); !ok || string(v) != "kept:"+k {
+				return fmt.Sprintf("the entry stored under the format key %q before the node ran is now %q (present=%v)", k, v, ok)
+			}
+		}
+		delete(e.Formatted, "seen-by-predicate")
+		if len(e.Formatted) != len(otherKeys)+1 {
+			return fmt.Sprintf("the table has %d entries after the node ran, %d were expected", len(e.Formatted), len(otherKeys)+1)
+		}
 	}
 	if len(b) == 0 || b[len(b)-1] != '\n' || bytes.Count(b, []byte("\n")) != 1 {
 		return fmt.Sprintf("stored bytes are not a single newline-terminated line: %q", b)
@@ -401,6 +420,9 @@ type tblCall struct {
 	ok        bool
 }
 
+//go:norace
+func setStr(p *string, v string) { *p = v }
+
 type stamps struct{ t int }
 
 //go:norace
@@ -414,6 +436,8 @@ var tblPrograms = [][][]tblOp{
 	// an empty and a nil value are values like any other: the last writer wins with them too
 	{{{true, "k1", "a"}, {false, "k1", ""}}, {{true, "k1", ""}, {false, "k1", ""}}},
 	{{{true, "k1", "<nil>"}, {false, "k1", ""}}, {{true, "k1", "b"}, {true, "k1", "<nil>"}, {false, "k1", ""}}},
+	// keys are exact strings: "JSON" and "json" are two entries
+	{{{true, "JSON", "a"}, {false, "json", ""}}, {{true, "json", "b"}, {false, "JSON", ""}}},
 }
 
 func tblBody(prog [][]tblOp, nilTable bool) func() string {
@@ -534,7 +558,12 @@ func main() {
 							if ti > 0 && variant > 1 && (i+ti)%5 != 0 {
 								continue
 							}
-							v := runCase(ds[i], typ, variant)
+							// inside a controlled execution: a node that blocks (on the event's own lock, say)
+							// is a deadlock verdict, not a hung worker
+							v := ""
+							if x := vrt.Run(vrt.RunOpts{}, func() { setStr(&v, runCase(ds[i], typ, variant)) }); x.Verdict != vrt.VNone && v == "" {
+								v = fmt.Sprintf("Process did not return: %s: %s", x.Verdict, x.VerdictMsg)
+							}
 							res.Add("execs", 1)
 							res.Add("steps", 1)
 							res.Add("nodes", 1)
@@ -567,7 +596,7 @@ func main() {
 				return hk.ExploreJob(prop, job, deadline, ex, fmt.Sprintf("program %d nilTable=%v", k/2, k%2 == 1))
 			}
 		},
-		Rule: "payloads: every value of a JSON grammar with leaves {\"\", ascii, quotes/backslash/control characters, invalid UTF-8, <>& and U+2028, 2^53+1, -1, 1.5, nil, true, NaN, +Inf, chan, func, complex} in containers {map, slice of 1-2, struct with json tags incl. omitempty, pointer} nested up to depth 3 (level 3 sampled 1-in-7 in quick, complete in thorough) x event types {plain, quote+backslash, newline, unicode+html, control bytes + DEL + ESC, invalid UTF-8, unassigned / plane-14 / U+10FFFF runes} x {JSONFormatter, JSONFormatterFilter with predicate absent/true/false/(false,error)/(true,error)}. Oracle: one newline-terminated line, valid JSON with exactly created_at/event_type/payload decoding back to the creation time, the type and the JSON image computed from the descriptor; payload/type/time untouched; unencodable => (nil, err) and nothing stored; the bytes stored for the previously formatted event stay unchanged (no buffer reuse); every case also with an event that already carries stale bytes under the json format (they must be replaced); forwarding truth tables incl. Filter. Event.FormattedAs/Format: 6 programs of 2-3 threads x 2-3 operations on 2 keys (values incl. empty and nil) (with and without a pre-made table), ALL interleavings under the race detector, results must be linearizable to a last-writer-wins map (brute force).",
+		Rule: "payloads: every value of a JSON grammar with leaves {\"\", ascii, quotes/backslash/control characters, invalid UTF-8, <>& and U+2028, 2^53+1, -1, 1.5, nil, true, NaN, +Inf, chan, func, complex} in containers {map, slice of 1-2, struct with json tags incl. omitempty, pointer} nested up to depth 3 (level 3 sampled 1-in-7 in quick, complete in thorough) x event types {plain, quote+backslash, newline, unicode+html, control bytes + DEL + ESC, invalid UTF-8, unassigned / plane-14 / U+10FFFF runes} x {JSONFormatter, JSONFormatterFilter with predicate absent/true/false/(false,error)/(true,error)}. Oracle: one newline-terminated line, valid JSON with exactly created_at/event_type/payload decoding back to the creation time, the type and the JSON image computed from the descriptor; payload/type/time untouched; unencodable => (nil, err) and nothing stored; the bytes stored for the previously formatted event stay unchanged (no buffer reuse); every case also with an event that already carries stale bytes under the json format (they must be replaced); forwarding truth tables incl. Filter. Event.FormattedAs/Format: 7 programs of 2-3 threads x 2-3 operations on 2 keys (values incl. empty and nil) (with and without a pre-made table), ALL interleavings under the race detector, results must be linearizable to a last-writer-wins map (brute force).",
 		Assumptions: []string{
 			"encoding/json's decoder is the independent reader of the emitted bytes; the expected image is computed from the value's descriptor, never by encoding the value",
 		},
